@@ -94,6 +94,11 @@ pub fn gen_lines(rng: &mut Rng, max_lines: usize) -> Vec<Line> {
             if valid_begin(lo) && valid_end(hi) {
                 break (lo, hi);
             }
+            // a range that ends with the last code point before the surrogate gap / of the code space: the reader stores
+            // end+1, which is not a scalar value, and refuses the file; should it ever load, everything below applies
+            if rng.chance(1, 4) && valid_begin(lo) && (hi == 0xd7ff || hi == 0x10ffff) {
+                break (lo, hi);
+            }
         };
         let mut classes = vec![];
         for _ in 0..1 + rng.below(3) {
